@@ -304,7 +304,8 @@ class VersionConverter(object):
                 # Move supported elements from Value to parent Property.
                 self._handle_value(value, prop_id)
 
-                if value.text:
+                # The text of an empty, pretty printed Value is whitespace only.
+                if value.text and value.text.strip():
                     values.append(value.text.strip())
 
                 prop.remove(value)
